@@ -245,6 +245,60 @@ Proof.
   unfold str_pair_oracle. now destruct (lex_cmp w a b).
 Qed.
 
+(* ------------------------------------------------------------------ *)
+(** * The (const Char_T * ) overloads and the item operators are the same order *)
+
+Lemma cstr_cut_no_nul : forall b, ~ In 0 b -> cstr_cut b = b.
+Proof.
+  induction b as [|x b IH]; intros H; simpl; [reflexivity|].
+  destruct (N.eqb_spec x 0) as [E|E].
+  - exfalso. apply H. left. assumption.
+  - f_equal. apply IH. intros J. apply H. right. assumption.
+Qed.
+
+(* the cut is the part before the first NUL *)
+Lemma cstr_cut_spec : forall b, ~ In 0 (cstr_cut b) /\
+  (cstr_cut b = b \/ exists r, b = cstr_cut b ++ 0 :: r).
+Proof.
+  induction b as [|x b [IH1 IH2]]; simpl.
+  - split; [intros []|left; reflexivity].
+  - destruct (N.eqb_spec x 0) as [E|E].
+    + subst. split; [intros []|right; exists b; reflexivity].
+    + split.
+      * intros [J|J]; [congruence|contradiction].
+      * destruct IH2 as [J|[r J]]; [left; congruence|right; exists r; simpl; congruence].
+Qed.
+
+Theorem cstr_ops_spec : forall w a b,
+  cstr_ops w a b = Some (ops_of_cmp (lex_cmp w a (cstr_cut b))).
+Proof. intros w a b. apply str_ops_spec. Qed.
+
+Theorem cstr_ops_no_nul : forall w a b, ~ In 0 b -> cstr_ops w a b = str_ops w a b.
+Proof. intros w a b H. unfold cstr_ops. now rewrite cstr_cut_no_nul. Qed.
+
+Theorem cstr_oracle_accepts_model : forall w a b bits,
+  cstr_ops w a b = Some bits -> cstr_pair_oracle w a b bits = true.
+Proof. intros w a b bits. apply str_oracle_accepts_model. Qed.
+
+Theorem item_ops_spec : forall w ka kb, item_ops w ka kb = Some (item_ops_of_cmp (lex_cmp w ka kb)).
+Proof.
+  intros w ka kb. unfold item_ops, str_lt, str_le, str_gt, str_ge.
+  rewrite str_eq_spec, !is_less_cmp, !is_greater_cmp, (list_eqb_cmp w).
+  now destruct (lex_cmp w ka kb).
+Qed.
+
+Theorem item_oracle_accepts_model : forall w ka kb bits,
+  item_ops w ka kb = Some bits -> item_pair_oracle w ka kb bits = true.
+Proof.
+  intros w ka kb bits H. rewrite item_ops_spec in H. injection H as <-.
+  unfold item_pair_oracle. now destruct (lex_cmp w ka kb).
+Qed.
+
+Example ex_cstr_cut : cstr_ops 0 [97] [97; 0; 98] = Some [false; true; false; true; true; false].
+Proof. reflexivity. Qed.
+Example ex_item : item_ops 0 [97] [97; 98] = Some [true; false; true; false; false].
+Proof. reflexivity. Qed.
+
 (* non-vacuity *)
 Example ex_prefix : str_ops 0 [97] [97; 98] = Some [true; true; false; false; false; true].
 Proof. reflexivity. Qed.
